@@ -15,7 +15,7 @@ ASSUMPTIONS = [
     "handlers are synchronous callables (async handlers go through the same txaio.as_future path)",
 ]
 BOUNDS = {
-    "quick": "3 handlers (one asking for event details, each with a free 'raises' flag) subscribed with free subscription ids, then <= 4 steps over {unsubscribe handler i, UNSUBSCRIBED, ERROR for the unsubscribe, EVENT with free subscription id and one of 4 payload shapes}",
+    "quick": "3 handlers (one asking for event details, each with a free 'raises' flag) subscribed with free subscription ids, then <= 4 steps over {unsubscribe handler i, UNSUBSCRIBED, ERROR for the unsubscribe, EVENT with free subscription id and one of 4 payload shapes}; 1-3 handlers on one subscription where a free 'actor' unsubscribes a free 'target' from inside its callback, two events (reentrant/ units)",
     "thorough": "3 handlers x <= 5 steps, 2 handlers x <= 6 steps, 4 handlers x <= 4 steps (4 handlers x 5 steps was measured: over the 40 min budget)",
 }
 EXPECT_COVERS = ["reentrant", "objform", "event:delivered", "event:shared-id", "event:racing-unsubscribe-dropped", "event:unknown-id-ProtocolError", "handler:raised", "unsubscribe:last", "unsubscribe:not-last"]
